@@ -111,3 +111,39 @@ def only_value_binders(ctx: Ctx, rule: str) -> int:
                 else:
                     rep.unknown(rule, m.qname, f"local-variable source visit_{kind} not classified", m.loc(x))
     return n
+
+
+def body_only(ctx: Ctx, rule: str) -> int:
+    """V4  the discovery visitors of a function are applied to its body statements, not to the whole definition
+    (decorators, annotations and default values are not code the function executes)."""
+    rep = ctx.report
+    n = 0
+    names = {c.name for c in visitor_classes(ctx)}
+    for q in ("dds.introspect.InspectFunction.inspect_fun", "dds._introspect_indirect.InspectFunctionIndirect.inspect_fun", "dds.introspect.InspectFunction.get_local_vars"):
+        f = ctx.prog.funcs.get(q)
+        if f is None:
+            continue
+        from ..flow import flow_of
+        fl = flow_of(ctx.prog, f)
+        vis_vars = set()
+        for x in f.own_nodes():
+            if isinstance(x, ast.Assign) and isinstance(x.value, ast.Call) and unparse(x.value.func).split(".")[-1] in names and isinstance(x.targets[0], ast.Name):
+                vis_vars.add(x.targets[0].id)
+        for x in f.own_nodes():
+            if isinstance(x, ast.Call) and isinstance(x.func, ast.Attribute) and x.func.attr == "visit" and isinstance(x.func.value, ast.Name) and x.func.value.id in vis_vars and x.args:
+                n += 1
+                a = x.args[0]
+                ok = False
+                if isinstance(a, ast.Name):
+                    for d in fl.defs_of_use(a):
+                        if d.kind == "for" and d.value is not None and isinstance(d.value, ast.Name) and d.value.id == "body":
+                            ok = True
+                desc = f"`{unparse(x, 40)}` in {f.name} visits the statements of the function body"
+                if ok:
+                    rep.ok(rule, f.qname, desc, f.loc(x))
+                else:
+                    rep.bad(rule, f.qname, desc, f.loc(x), [f"{f.loc(x)}: the visitor is applied to `{unparse(a)}`, not to the statements of `body`",
+                            "decorator arguments, annotations and default values are then analysed as body code: the variable naming the store path in @data_function(OUT) or a "
+                            "typing annotation becomes a dependency, so edits the function cannot observe (or copying the code to another module) change its signature"],
+                            stmt_key(x), what="discovery visitors walk decorators / annotations / defaults of the definition")
+    return n
